@@ -274,8 +274,10 @@ for perm in interleavings((2, 2)):
     add_merger((2, 2), perm, "ARR", "quick")
 for perm in ("1212", "1221", "2112"):
     add_merger((2, 2), perm, "ARA", "quick")
+add_merger((2, 2), "1212", "ARAR", "quick")
 add_merger((1, 1, 1), "213", "ARR", "quick")
-add_merger((1, 2), None, "ARR", "quick")
+add_merger((1, 2), None, "AR", "quick")
+add_merger((1, 2), None, "ARR", "thorough")
 add_merger((0, 2), "22", "ARR", "quick")
 for perm in interleavings((3, 2)):
     add_merger((3, 2), perm, "ARR", "thorough")
@@ -285,7 +287,7 @@ for perm in interleavings((2, 2)):
 for perm in interleavings((1, 1, 1)) + ["112233", "123123", "321321", "132132"]:
     add_merger((1, 1, 1) if len(perm) == 3 else (2, 2, 2), perm, "ARR", "thorough")
 add_merger((2, 2), None, "ARR", "thorough")
-for (sizes, tier) in (((2, 2), "quick"), ((3, 2), "thorough"), ((2, 2, 2), "thorough")):
+for (sizes, tier) in (((1, 2), "quick"), ((2, 2), "thorough"), ((3, 2), "thorough"), ((2, 2, 2), "thorough")):
     add("c.merger-scan-dups-%s" % "x".join(str(x) for x in sizes), "C07/merger.c", real=UTIL_REAL, kit=KIT_SLAB,
         include_real=["table/merger.c"], defs=merger_defs(sizes, 1), unwind=sum(sizes) + 3, tier=tier,
         functions=MERGER_FUNCS,
@@ -330,7 +332,7 @@ for (sizes, fam, tier) in (((1, 0), "ARR", "quick"), ((0, 1), "ARR", "quick"), (
         functions=TWO_FUNCS, fp_rules={"block_function": "vp_blockfn"},
         desc="two_level_iterator.c over an index child and per-block children (some EMPTY, status symbolic = some FAILING): after every step valid/key/value == sorted-map cursor over the union (empty blocks skipped both ways, nothing lost/repeated); exactly the held data iterator alive; status() == index status, else held block status, else first non-OK status of released blocks; a block error is never forgotten",
         bounds="blocks with %s entries (concrete keys: the unit never compares keys), symbolic seek targets below/on/between/above every key and separator, symbolic index and block statuses, %s" % ("/".join(str(x) for x in sizes), fam_text(fam)))
-for (sizes, symkeys, tier) in (((1, 0, 1), 0, "quick"), ((0, 1, 0, 1), 0, "quick"), ((1, 0, 1), 1, "quick"),
+for (sizes, symkeys, tier) in (((1, 0, 1), 0, "quick"), ((0, 1, 0, 1), 0, "quick"), ((1, 0), 1, "quick"), ((1, 0, 1), 1, "thorough"),
                                ((2, 0, 0, 1), 0, "thorough"), ((2, 2, 2), 1, "thorough")):
     d = two_defs(sizes, 1)
     d["VP_SYMKEYS"] = symkeys
@@ -348,30 +350,67 @@ BLOCK_FUNCS = ["ldb_blockiter_first", "ldb_blockiter_last", "ldb_blockiter_seek"
                "ldb_block_init", "ldb_blockiter_create", "ldb_blockgen_add", "ldb_blockgen_finish"]
 
 
-def block_defs(lens, ri, mode):
-    d = {"VP_MODE": mode, "VP_N": len(lens), "VP_RI": ri, "VP_VL": 1, "VP_SLAB": 64}
-    for i, x in enumerate(lens):
-        d["VP_L%d" % i] = x
+def block_defs(lens, ri, mode, keyset=0):
+    d = {"VP_MODE": mode, "VP_N": len(lens), "VP_RI": ri, "VP_VL": 1, "VP_SLAB": 64, "VP_KEYSET": keyset}
+    if not keyset:
+        for i, x in enumerate(lens):
+            d["VP_L%d" % i] = x
     return d
 
 
-for (lens, ri, fam, tier) in (((2, 2), 1, "**", "quick"), ((2, 2), 2, "**", "quick"), ((1, 2, 3), 2, "AR", "quick"),
-                              ((2, 2, 2), 1, "AR", "quick"), ((2, 2, 2), 3, "AR", "quick"), ((2, 2, 2), 2, "AA", "quick"),
-                              ((2,), 1, "**", "quick"),
-                              ((2, 2, 2), 2, "**", "thorough"), ((3, 3, 3), 1, "**", "thorough"), ((3, 3, 3), 2, "**", "thorough"),
-                              ((3, 3, 3), 3, "**", "thorough"), ((3, 2, 1), 2, "**", "thorough"), ((2, 2, 2), 2, "ARR", "thorough")):
-    d = block_defs(lens, ri, 0)
+def block_loops(n, ri):
+    restarts = (n + ri - 1) // ri
+    # entry loops visit every entry / restart point at most once; keys, values and
+    # targets are <= 3 bytes; the global bound 6 covers the 5-step varint loops
+    return {"ldb_blockiter_seek.0": restarts + 1, "ldb_blockiter_seek.1": n + 2, "ldb_blockiter_prev.0": restarts + 2,
+            "ldb_blockiter_prev.1": n + 2, "ldb_blockiter_last.0": n + 2, "parse_next_key.0": restarts + 1,
+            "memcpy.0": 5, "memcmp.0": 5}
+
+
+KEYSETS = {1: ((1, 2, 3), '"a" "ab" "abc"'), 2: ((2, 2, 1), '"aa" "ab" "b"'), 3: ((3, 3, 3), '"abc" "abd" "abe"'),
+           4: ((1, 1, 1), '"b" "c" "d"')}
+
+
+def add_block_ops(keyset, lens, ri, fam, tier):
+    if keyset:
+        lens = KEYSETS[keyset][0][:len(lens)]
+        name = "a.block-ops-S%d-N%d-R%d-%s" % (keyset, len(lens), ri, fam.replace("*", "x"))
+        keys = "concrete keys %s (first %d)" % (KEYSETS[keyset][1], len(lens))
+    else:
+        name = "a.block-ops-L%s-R%d-%s" % ("".join(str(x) for x in lens), ri, fam.replace("*", "x"))
+        keys = "key lengths %s, symbolic bytes (strictly increasing: every shared-prefix length)" % "/".join(str(x) for x in lens)
+    d = block_defs(lens, ri, 0, keyset)
     d.update(fam_defs(fam))
-    add("a.block-ops-L%s-R%d-%s" % ("".join(str(x) for x in lens), ri, fam.replace("*", "x")), "C07/blockiter.c",
-        real=BLOCK_REAL, kit=KIT_SLAB, include_real=["table/block.c"], defs=d, unwind=8, tier=tier, flags=NOSTD,
-        functions=BLOCK_FUNCS,
+    add(name, "C07/blockiter.c", real=BLOCK_REAL, kit=KIT_SLAB, include_real=["table/block.c"], defs=d,
+        unwind=6, unwindset=block_loops(len(lens), ri), object_bits=10, tier=tier, flags=NOSTD, functions=BLOCK_FUNCS,
         desc="block.c iterator on a block produced by the real block_builder.c: after every step valid/key/value == sorted-map cursor over the added entries, status OK",
-        bounds="%d entries, key lengths %s (symbolic bytes, strictly increasing), 1-byte symbolic values, restart interval %d, symbolic target of 0..3 bytes, %s" % (len(lens), "/".join(str(x) for x in lens), ri, fam_text(fam)))
-for (lens, ri, tier) in (((2, 2, 2), 2, "quick"), ((1, 2, 3), 1, "quick"), ((3, 3, 3), 3, "thorough"), ((3, 3, 3), 2, "thorough")):
-    add("a.block-scan-L%s-R%d" % ("".join(str(x) for x in lens), ri), "C07/blockiter.c", real=BLOCK_REAL, kit=KIT_SLAB,
-        include_real=["table/block.c"], defs=block_defs(lens, ri, 1), unwind=8, tier=tier, functions=BLOCK_FUNCS,
+        bounds="%d entries, %s, 1-byte symbolic values, restart interval %d, symbolic seek target of 0..3 bytes, %s" % (len(lens), keys, ri, fam_text(fam)))
+
+
+for (keyset, n, ri, fam) in ((1, 3, 2, "AR"), (2, 3, 1, "AR"), (3, 3, 3, "AR"), (4, 3, 2, "AA"), (2, 3, 2, "AA"), (3, 2, 1, "AR")):
+    add_block_ops(keyset, (0,) * n, ri, fam, "quick")
+for keyset in (1, 2, 3, 4):
+    for ri in (1, 2, 3):
+        for fam in ("AR", "AA", "**"):
+            add_block_ops(keyset, (0, 0, 0), ri, fam, "thorough")
+for (lens, ri, fam) in (((2, 2), 1, "**"), ((2, 2), 2, "**"), ((1, 2, 3), 2, "AR"), ((2, 2, 2), 1, "AR"), ((2, 2, 2), 3, "AR"),
+                        ((3, 3, 3), 2, "AR"), ((2,), 1, "**")):
+    add_block_ops(0, lens, ri, fam, "thorough")
+for (keyset, lens, ri, tier) in ((1, (0, 0, 0), 1, "quick"), (3, (0, 0, 0), 2, "quick"), (2, (0, 0, 0), 3, "quick"),
+                                 (0, (2, 2), 1, "thorough"), (0, (1, 2, 3), 2, "thorough"), (0, (2, 2, 2), 2, "thorough"),
+                                 (0, (3, 3, 3), 3, "thorough")):
+    if keyset:
+        lens = KEYSETS[keyset][0][:len(lens)]
+        name = "a.block-scan-S%d-N%d-R%d" % (keyset, len(lens), ri)
+        keys = "concrete keys %s" % KEYSETS[keyset][1]
+    else:
+        name = "a.block-scan-L%s-R%d" % ("".join(str(x) for x in lens), ri)
+        keys = "key lengths %s, symbolic bytes" % "/".join(str(x) for x in lens)
+    add(name, "C07/blockiter.c", real=BLOCK_REAL, kit=KIT_SLAB, include_real=["table/block.c"],
+        defs=block_defs(lens, ri, 1, keyset), unwind=6, unwindset=block_loops(len(lens), ri), object_bits=10,
+        tier=tier, functions=BLOCK_FUNCS,
         desc="block.c iterator on a builder-produced block: full forward and full backward scans yield exactly the added entries, each once, in order / reverse order (CBMC pointer checks on)",
-        bounds="%d entries, key lengths %s, restart interval %d" % (len(lens), "/".join(str(x) for x in lens), ri))
+        bounds="%d entries, %s, 1-byte symbolic values, restart interval %d" % (len(lens), keys, ri))
 
 META = {
     "level": "model_checking",
